@@ -114,8 +114,11 @@ def structural(acc):
         f = wrapped_function(w, n)
         if names.count(n) == 1:
             # co_firstlineno of a decorated function is the line of its first decorator
-            ob("registry-entry-wraps-this-definition", n, f is not None and f.__code__.co_firstlineno == line,
-               "registry entry for {} does not wrap the function defined at line {}".format(n, line))
+            if f is None:
+                acc.notes["wrapped-function-not-introspectable(obligation skipped)"] += 1
+            else:
+                ob("registry-entry-wraps-this-definition", n, f.__code__.co_firstlineno == line,
+                   "registry entry for {} does not wrap the function defined at line {}".format(n, line))
         regk = ["pattern" if getattr(p, "__name__", "") == "_regex_match" else "pred" for p in pats]
         ob("argument-kinds-match-source", n, regk == kinds, "source {} registry {}".format(kinds, regk))
         adj = any(a == "pattern" and b == "pattern" for a, b in zip(kinds, kinds[1:])) or \
